@@ -66,6 +66,8 @@ PROGRAMS = [
     ('one file reachable through two include directories', {'main.asm': ' nop\n#include "lk.asm"\n ld a, 2\n#include "u1.asm"\n',
                                                             'd1/lk.asm': 'lkl: .byte 1\n', 'd2/lk.asm': '@symlink:../d1/lk.asm',
                                                             'd3/u1.asm': 'u1l: ld a, 1\n'}, ('d1', 'd2', 'd3')),
+    ('layout-time expressions across zones', {'main.asm': '.memzone zz\nza: .byte 1, 2, 3\nza_end:\n.memzone zy\nzb: .fill za_end - za, $EE\n'
+                                                          '.memzone GLOBAL\n nop\n.org 8 "zz"\n .byte 9\n.memzone zy\n.zerountil zb + 5\n'}, ()),
     ('several -D', {'main.asm': ' .byte LA, LB, LC\n#if LC >= 1\n nop\n#endif\n'}, ()),
     ('one name in several -D', {'main.asm': ' .byte LV\n#if LV >= 2\n nop\n#endif\n'}, ()),
 ]
@@ -78,8 +80,8 @@ FORMATS_B = ['listing', 'hex', 'intel_hex', 'minhex']
 def meta(tier):
     q = tier == 'quick'
     return {
-        'rule': 'part A: 11 programs (several include directories with unique, ambiguous, shadowing, nested, linked and missing files; registers; '
-                'mnemonics that are prefixes of one another or contain a period; macros; symbols; zones; several -D definitions, also of one name) x 2 output formats; the default '
+        'rule': 'part A: 12 programs (several include directories with unique, ambiguous, shadowing, nested, linked and missing files; registers; '
+                'mnemonics that are prefixes of one another or contain a period; macros; symbols; zones; several -D definitions, also of one name; directives whose size or target is computed from labels of another zone) x 2 output formats; the default '
                 'schedule and every schedule with one (thorough: two) deviating choice point (all permutations for sets of <=4 elements, '
                 'reversal and every rotation above) must produce identical status, image and pretty print; the default schedule is '
                 'replayed twice. Part B: the same programs x 4 formats through the real CLI for hash seeds 0..3 (thorough 0..15) x 2 (thorough 3) '
